@@ -218,6 +218,37 @@ def write_evidence(pid, tier, seed, spec, cov, wall, violations, extra=None):
     os.replace(tmp, os.path.join(VERIF, "evidence", pid + ".json"))
 
 
+def history_confirm(binp, scratch, seed, hist, idx, cls, tag, test_run="TestSim", extra_env=None):
+    """Re-executes, in a fresh process, the exact sequence of runs a worker made up to and including run idx (same
+    seed, start, stride; no minimisation in between) and reports whether run idx fails again with the same class.
+    This is the replay of a failure that depends on what the process did before (state that outlives a call)."""
+    count = (idx - hist["start"]) // hist["stride"] + 1
+    env = dict(ENV)
+    outp = os.path.join(scratch, "hist-%s.json" % tag)
+    for x in (outp, outp + ".stuck", outp + ".stuck.stacks"):
+        if os.path.exists(x):
+            os.remove(x)
+    env.update(VERIF_MODE="batch", VERIF_SEED=str(seed), VERIF_START=str(hist["start"]), VERIF_STRIDE=str(hist["stride"]), VERIF_COUNT=str(count),
+               VERIF_OUT=outp, VERIF_REPO=REPO, GOMAXPROCS="2", VERIF_SCRATCH=scratch, TMPDIR=scratch, VERIF_MAXFAIL="1000000", VERIF_NOMIN="1", VERIF_STUCK_S="45")
+    env.update(extra_env or {})
+    try:
+        subprocess.run([binp, "-test.run", "^%s$" % test_run, "-test.timeout", "0", "-test.count", "1"], env=env, cwd=scratch,
+                       stdout=subprocess.DEVNULL, stderr=subprocess.DEVNULL, timeout=1800)
+    except subprocess.TimeoutExpired:
+        return False
+    if os.path.exists(outp + ".stuck"):
+        try:
+            return cls == "hang" and int(open(outp + ".stuck").read()) == idx
+        except ValueError:
+            return False
+    if not os.path.exists(outp):
+        return False
+    for f in (json.load(open(outp)).get("failures") or []):
+        if f.get("index") == idx and f.get("class") == cls:
+            return True
+    return False
+
+
 def handle_failures(pid, failures, binp, scratch, seed, test_run="TestSim", extra_env=None):
     """Confirm each failure in a fresh process; returns (violations, known, unconfirmed)."""
     os.makedirs(os.path.join(VERIF, "replays"), exist_ok=True)
@@ -234,9 +265,16 @@ def handle_failures(pid, failures, binp, scratch, seed, test_run="TestSim", extr
         json.dump(f, open(fp, "w"))
         r = replay_once(binp, scratch, fp, str(n), test_run, extra_env)
         if not r.get("reproduced"):
-            f["replay_result"] = r
-            unconfirmed.append(f)
-            continue
+            hist = f.get("_worker")
+            if hist and f.get("index") is not None and history_confirm(binp, scratch, seed, hist, f["index"], f.get("class"), str(n), test_run, extra_env):
+                # the run fails only after the runs that preceded it in the same process: the replay is that sequence
+                f["history"] = {"seed": int(seed), "start": hist["start"], "stride": hist["stride"], "upto_index": f["index"]}
+                f["note"] = "fails only with the process history: replaying run %d alone does not fail, replaying the worker's runs %d, %d, ... %d in one fresh process does" % (
+                    f["index"], hist["start"], hist["start"] + hist["stride"], f["index"])
+            else:
+                f["replay_result"] = r
+                unconfirmed.append(f)
+                continue
         k = match_known(pid, f)
         if k is not None:
             if k["id"] not in seen_known:
@@ -256,7 +294,7 @@ def handle_failures(pid, failures, binp, scratch, seed, test_run="TestSim", extr
 def finish(pid, violations, known, unconfirmed, vacuity=None):
     for k, f in known:
         print("KNOWN-FINDING: property=%s %s" % (pid, k["what"]), flush=True)
-    if unconfirmed:
+    if unconfirmed and not violations:
         for f in unconfirmed[:3]:
             print("UNCONFIRMED anomaly (class=%s): %s" % (f.get("class"), str(f.get("detail"))[:600]))
             if f.get("replay_result"):
@@ -277,7 +315,12 @@ def run_regressions(pid, binp, scratch, test_run="TestSim", extra_env=None):
     """Replay every committed regression file (earlier findings, seeded mutants that were caught) against the current tree."""
     out = {"violations": [], "summary": {"replayed": 0, "reproduced": []}}
     for n, path in enumerate(sorted(glob.glob(os.path.join(VERIF, "regress", pid, "*.json")))):
-        r = replay_once(binp, scratch, path, "reg%d" % n, test_run, extra_env)
+        fr = json.load(open(path))
+        if fr.get("history"):
+            h = fr["history"]
+            r = {"reproduced": history_confirm(binp, scratch, h["seed"], {"start": h["start"], "stride": h["stride"]}, h["upto_index"], fr.get("class"), "reg%d" % n, test_run, extra_env)}
+        else:
+            r = replay_once(binp, scratch, path, "reg%d" % n, test_run, extra_env)
         out["summary"]["replayed"] += 1
         if r.get("reproduced"):
             f = json.load(open(path))
@@ -306,15 +349,20 @@ def check_sched(pid, spec, args):
                 stuck.append(int(open(op + ".stuck").read()))
                 continue
             if not os.path.exists(op):
-                print(open(os.path.join(scratch, "w%d.log" % w)).read()[-3000:])
+                wl = open(os.path.join(scratch, "w%d.log" % w)).read()
+                print(wl[:3000] + ("\n[...]\n" + wl[-3000:] if len(wl) > 3000 else ""))
                 infra("worker %d produced no summary (exit %s)" % (w, p.returncode))
             sums.append(json.load(open(op)))
-        failures = [f for s in sums for f in (s.get("failures") or [])]
+        failures = []
+        for s in sums:
+            for f in (s.get("failures") or []):
+                f["_worker"] = {"start": s.get("first_index", 0), "stride": workers}
+                failures.append(f)
         failures.sort(key=lambda f: f.get("index", 0))
         # a worker that stopped making progress: replay that run once in a fresh process
         for idx in stuck:
             fj = {"property": pid, "class": "hang", "detail": "run made no progress for the watchdog interval (spin without reaching a yield)",
-                  "seed": seed, "index": idx, "stuck": True}
+                  "seed": seed, "index": idx, "stuck": True, "_worker": {"start": idx % workers, "stride": workers}}
             failures.append(fj)
         violations, known, unconfirmed = handle_failures_sched(pid, spec, failures, binp, scratch, seed)
         violations = regress["violations"] + violations
@@ -418,6 +466,23 @@ def handle_failures_sched(pid, spec, failures, binp, scratch, seed):
                     return [(path, f)], [], []
                 return [], [(k, f)], []
             else:
+                hist = f.get("_worker")
+                if hist and history_confirm(binp, scratch, seed, hist, f["index"], "hang", "stuck%d" % f["index"]):
+                    stacks = open(os.path.join(scratch, "hist-stuck%d.json.stuck.stacks" % f["index"])).read() if os.path.exists(os.path.join(scratch, "hist-stuck%d.json.stuck.stacks" % f["index"])) else ""
+                    if re.search(r"sync\.\(\*(RW)?Mutex\)\.(Lock|RLock|lockSlow)|sync\.\(\*Once\)\.doSlow|internal/sync\.\(\*Mutex\)\.lockSlow", stacks):
+                        print(stacks[:3000])
+                        infra("a run stalls on a real (un-simulated) lock held by a parked task; instrument the package that owns it")
+                    f["history"] = {"seed": int(seed), "start": hist["start"], "stride": hist["stride"], "upto_index": f["index"]}
+                    f["stacks"] = stacks[:6000]
+                    f["confirmed_in_fresh_process"] = True
+                    f["note"] = "the run stalls only after the runs that preceded it in the same process; replay = that sequence"
+                    k = match_known(pid, f)
+                    os.makedirs(os.path.join(VERIF, "replays"), exist_ok=True)
+                    if k is None:
+                        path = os.path.join(VERIF, "replays", "%s-%d-%d.json" % (pid, int(seed), f["index"]))
+                        json.dump(f, open(path, "w"), indent=1)
+                        return [(path, f)], [], []
+                    return [], [(k, f)], []
                 f["class"] = "infra"
                 f["detail"] = "worker stalled once but the same run finished when repeated"
         out.append(f)
@@ -479,6 +544,17 @@ def cmd_replay(args):
             print("VIOLATION property=%s replay=%s" % (pid, r["violation"]))
             sys.exit(1)
         print("race probe clean on the current tree")
+        sys.exit(0)
+    if f.get("history"):
+        h = f["history"]
+        with Scratch() as scratch:
+            overlay, rep_ = instrument(spec, scratch)
+            binp = build_harness(spec, scratch, overlay, replaces=rep_.get("_replaces"))
+            ok = history_confirm(binp, scratch, h["seed"], {"start": h["start"], "stride": h["stride"]}, h["upto_index"], f.get("class"), "x")
+        if ok:
+            print("VIOLATION property=%s replay=%s" % (pid, os.path.abspath(args.file)))
+            sys.exit(1)
+        print("not reproduced on the current tree")
         sys.exit(0)
     if f.get("stuck"):
         with Scratch() as scratch:
